@@ -162,7 +162,7 @@ def word_compare(in_words, out_words):
     return None
 
 
-def evaluate(texts, spacing, first):
+def evaluate(texts, spacing, first, base_us=0):
     """texts: list (per cue) of list of lines"""
     from pycaption import SCCReader, SCCWriter
 
@@ -185,7 +185,7 @@ def evaluate(texts, spacing, first):
     for i, lines in enumerate(texts):
         need = int((nwords[i] + 4) * FRAME) + 1
         if i == 0:
-            s = need + (0 if first == "early" else 7000000)
+            s = need + (0 if first == "early" else 7000000) + base_us
         else:
             prev_end = cues[-1][1]
             if spacing == "feasible":
@@ -257,6 +257,7 @@ def shards(tier, seed):
     sh += [{"k": "lines2x", "lo": i, "hi": min(len(types), i + 8), "full": tier != "quick"} for i in range(0, len(types), 8)]
     sh += [{"k": "stacks"}]
     sh += [{"k": "cues", "part": p} for p in range(4)]
+    sh += [{"k": "late"}]
     return sh
 
 
@@ -274,7 +275,16 @@ def run_case(acc, texts, spacing="sparse", first="late"):
 def run_shard(d):
     acc = Acc()
     k = d["k"]
-    if k == "chars":
+    if k == "late":
+        # timecodes beyond the first hour (minute / hour carries of the written timecode)
+        for base in (3590000000, 3600000000, 3695000000, 7261000000, 35999000000, 86300000000):
+            for a in REP[:4]:
+                texts = [[make_line(*a)], [make_line(*REP[1], salt=3)]]
+                v, out = evaluate(texts, "sparse", "late", base)
+                acc.case((texts, "late", base), True, out, {"cues": texts, "first_cue_at_us": base})
+                for kind, det in v:
+                    acc.violation(f"C17/{kind}/{feature(texts)}/beyond-one-hour", {"texts": texts, "spacing": "sparse", "first": "late", "base": base}, det)
+    elif k == "chars":
         chars = [ch for code, ch in sorted(C.BASIC.items()) if code != 0x7F and ch != " "]
         for i, ch in enumerate(chars):
             if i % 4 != d["part"]:
@@ -322,5 +332,5 @@ def replay(case):
     # a reused writer: give the shared object one earlier document to write
     _SHARED_WRITER = SCCWriter()
     _SHARED_WRITER.write(build_set([(20000000, 22000000, ["earlier document"])]))
-    v, _ = evaluate(case["texts"], case["spacing"], case["first"])
-    return [{"sig": f"C17/{k}/{feature(case['texts'])}", "detail": det} for k, det in v]
+    v, _ = evaluate(case["texts"], case["spacing"], case["first"], case.get("base", 0))
+    return [{"sig": f"C17/{k}/{feature(case['texts'])}" + ("/beyond-one-hour" if case.get("base") else ""), "detail": det} for k, det in v]
